@@ -188,6 +188,21 @@ def run(ck: Check) -> None:
         "rule": "program = one optimizer configuration compiled with one (backend, dynamic) mode and run for 7 steps crossing warm-up/preconditioned, refresh/non-refresh, an lr edit and two gradient-presence changes; every step validated against the Coq step model by coqc and the whole run compared bit-for-bit with eager; non-trivial = Dynamo reported at least one compiled graph",
         "distribution": {"modes": modes_hist, "graphs_per_program": sorted({r.get("graphs", 0) for r in results if "error" not in r})},
         "explanation": "translation validation of executions; the compiler is not modelled",
+        "quantifier_audit": {
+            "backend eager / aot_eager": [sum(1 for j in jobs if j[1][0] == "eager"), sum(1 for j in jobs if j[1][0] == "aot_eager")],
+            "shape mode static / dynamic / automatic": [sum(1 for j in jobs if j[1][1] is False), sum(1 for j in jobs if j[1][1] is True), sum(1 for j in jobs if j[1][1] is None)],
+            "gradient presence change that changes the number of active blocks (forces recompilation)": sum(1 for j in jobs if len(j[0]["groups"]) == 1 and any(not all(s["present"][0]) for s in j[0]["steps"]) and not (len(j[0]["groups"][0]["shapes"]) == 2 and j[0]["groups"][0]["shapes"][0] == j[0]["groups"][0]["shapes"][1] and any(s["present"][0] in ([True, False], [False, True]) for s in j[0]["steps"]))),
+            "alternating gradients on two equal-shaped parameters (same count, no recompilation)": sum(1 for j in jobs if len(j[0]["groups"]) == 1 and len(j[0]["groups"][0]["shapes"]) == 2 and any(s["present"][0] == [True, False] for s in j[0]["steps"]) and any(s["present"][0] == [False, True] for s in j[0]["steps"])),
+            "twin parameter groups (identical hyperparameters and shapes)": sum(1 for j in jobs if len(j[0]["groups"]) == 2),
+            "lr edited between steps": sum(1 for j in jobs if any(s.get("edits") for s in j[0]["steps"])),
+            "Shampoo / SOAP": [sum(1 for j in jobs if j[0]["groups"][0]["cfg"]["kind"] == "shampoo"), sum(1 for j in jobs if j[0]["groups"][0]["cfg"]["kind"] == "soap")],
+            "grafting none/sgd/adagrad/rmsprop/adam": [sum(1 for j in jobs if j[0]["groups"][0]["cfg"]["graft"] == g) for g in (None, "sgd", "adagrad", "rmsprop", "adam")],
+            "momentum / Nesterov": [sum(1 for j in jobs if j[0]["groups"][0]["cfg"]["momentum"]), sum(1 for j in jobs if j[0]["groups"][0]["cfg"]["momentum"] and j[0]["groups"][0]["cfg"]["nesterov"])],
+            "weight decay coupled / decoupled": [sum(1 for j in jobs if j[0]["groups"][0]["cfg"]["wd"] and not j[0]["groups"][0]["cfg"]["decoupled"]), sum(1 for j in jobs if j[0]["groups"][0]["cfg"]["wd"] and j[0]["groups"][0]["cfg"]["decoupled"])],
+            "filtering (beta1 > 0)": sum(1 for j in jobs if j[0]["groups"][0]["cfg"]["betas"][0] > 0),
+            "parameters split into several blocks": sum(1 for r in results if "error" not in r and r.get("max_blocks", 0) >= 2),
+        },
+        "not_exercised": ["inductor backend (outside the property's wording; no GPU)", "groups mixing different grafting types in one optimizer under compile are only reached through the twin-group variant with identical configs"],
     })
     ck.assumptions += ["backends eager and aot_eager on CPU; float64 parameters"]
 
